@@ -228,6 +228,14 @@ Example C05_retry_502_when_spent_nonvacuous :
             EAttempt 8 0 KFailBefore RxNotRead false 9]).
 Proof. exact exC_502. Qed.
 
+(* "... and otherwise fails with 502 once the duration is spent": a 502 is never returned earlier,
+   whatever the hosts and the selector do *)
+Theorem C05_retry_502_only_when_spent :
+  forall (S : Type) (sel : S -> list bool -> option nat * S) c unh scr envdown fuel now fx cnt st fresh it t,
+  fst (runT S sel c unh scr envdown fuel now fx cnt st fresh it) = T502 t -> t_td c <= t.
+Proof. exact runT_502_only_spent. Qed.
+Print Assumptions C05_retry_502_only_when_spent.
+
 (* never a hang, whatever the hosts and the selector do *)
 Theorem C05_retry_terminates :
   forall (S : Type) (sel : S -> list bool -> option nat * S) c unh scr envdown fuel fx cnt st fresh,
